@@ -36,11 +36,16 @@ type Config struct {
 	Step    bool     `json:"step"`             // explore the inside of open (holders 1 and 2 step)
 	Prefix  []string `json:"prefix,omitempty"` // events executed before the exploration starts
 	CLI     []string `json:"cli,omitempty"`    // names of catalogue commands in the alphabet
-	Depth   int      `json:"depth"`            // 0 = until no event is enabled
+	// UCLI: catalogue commands that are also run under another, unprivileged uid (event "ucli:<name>")
+	// while the holders run as the coordinator's uid (root); ignored when the run cannot change uid
+	UCLI  []string `json:"ucli,omitempty"`
+	Depth int      `json:"depth"` // 0 = until no event is enabled
 }
 
 // Env is what an execution needs from the check run.
 type Env struct {
+	// OtherUID: uid/gid for "ucli" events (0: not available, the events are left out)
+	OtherUID int
 	Self     string // harness binary
 	GitBug   string // real git-bug binary built from $VERIF_REPO
 	Template string // template directory (contains r/ = repository)
@@ -605,6 +610,11 @@ func (x *execution) enabled() []string {
 		}
 		return out
 	}
+	if x.env.OtherUID != 0 {
+		for _, c := range x.cfg.UCLI {
+			out = append(out, "ucli:"+c)
+		}
+	}
 	for _, c := range x.cfg.CLI {
 		out = append(out, "cli:"+c)
 	}
@@ -708,6 +718,8 @@ func actorKind(event string) string {
 	switch k {
 	case "cli":
 		return "command-" + arg
+	case "ucli":
+		return "command-" + arg + "-as-other-uid"
 	case "step":
 		return "step-of-other-open"
 	}
@@ -747,7 +759,9 @@ func (x *execution) apply(event string, prefix bool) {
 	case "exit":
 		x.evExit(event, x.holder(arg))
 	case "cli":
-		x.evCLI(event, arg)
+		x.evCLI(event, arg, false)
+	case "ucli":
+		x.evCLI(event, arg, true)
 	case "begin":
 		x.evStep(event, x.holder(arg), "open-step")
 	case "step":
@@ -966,10 +980,40 @@ func (x *execution) lockRole() string {
 
 var lockWord = regexp.MustCompile(`(?i)\block`)
 
-func (x *execution) evCLI(event, name string) {
+// openToAll makes the repository and the isolated home usable by any uid (the holders and earlier
+// commands created files as root).
+func (x *execution) openToAll() {
+	for _, root := range []string{x.repo, filepath.Join(x.dir, "home")} {
+		err := filepath.WalkDir(root, func(p string, d fs.DirEntry, err error) error {
+			if err != nil {
+				return err
+			}
+			if d.Type()&fs.ModeSymlink != 0 {
+				return nil
+			}
+			if d.IsDir() {
+				return os.Chmod(p, 0o777)
+			}
+			return os.Chmod(p, 0o666)
+		})
+		if err != nil {
+			panic(herr("chmod for the other uid: %v", err))
+		}
+	}
+}
+
+func (x *execution) evCLI(event, name string, otherUID bool) {
 	args, ok := cliCatalogue[name]
 	if !ok {
 		panic(herr("unknown command %q", name))
+	}
+	label := name
+	if otherUID {
+		if x.env.OtherUID == 0 {
+			panic(herr("event %q needs a second uid", event))
+		}
+		label = name + "-as-other-uid"
+		x.openToAll()
 	}
 	q := x.liveHolder()
 	lockBefore := x.lockClass()
@@ -988,12 +1032,16 @@ func (x *execution) evCLI(event, name string) {
 	if q != "" {
 		watch = func() bool { return x.lockClassQuiet() != "live:"+q }
 	}
-	code, stdout, stderr, pid, aborted := x.runCLI(args, watch)
+	uid := 0
+	if otherUID {
+		uid = x.env.OtherUID
+	}
+	code, stdout, stderr, pid, aborted := x.runCLI(args, watch, uid)
 	x.deadPids[pid] = "cli"
 	if aborted {
 		x.obs(event, "changed the lock file of the live holder while running (command killed) lock-after="+lockKind(x.lockClass()), "")
-		x.report("live-lock-clobbered", "by-command-"+name+"|"+x.ctx(),
-			fmt.Sprintf("%s (pid %d, alive) holds the cache, yet while git-bug %s was running the lock file became %s", q, x.holders[q].pid, strings.Join(args, " "), x.pidsText(x.lockClass())))
+		x.report("live-lock-clobbered", "by-command-"+label+"|"+x.ctx(),
+			fmt.Sprintf("%s (pid %d, alive) holds the cache, yet while git-bug %s%s was running the lock file became %s", q, x.holders[q].pid, strings.Join(args, " "), map[bool]string{true: " (run as uid " + strconv.Itoa(x.env.OtherUID) + ")", false: ""}[otherUID], x.pidsText(x.lockClass())))
 		x.res.Broken = true
 		return
 	}
@@ -1005,7 +1053,7 @@ func (x *execution) evCLI(event, name string) {
 	lc := x.lockClass()
 	outcome += " lock-after=" + lockKind(lc)
 	x.obs(event, outcome, strings.TrimSpace(stdout+"\n"+stderr))
-	who := "command-" + name
+	who := "command-" + label
 	if q != "" {
 		x.expectRefused(event, who, q, code != 0, stderr, before)
 		return
@@ -1023,7 +1071,7 @@ func (x *execution) evCLI(event, name string) {
 	// every command releases the lock, on success and on failure: the lock file must not be the
 	// command's own (a lock the command never took is judged by the open oracles above)
 	if strings.TrimSpace(readFileString(x.lockPath())) == strconv.Itoa(pid) {
-		x.report("lock-left-after-command", name+"-"+ident,
+		x.report("lock-left-after-command", label+"-"+ident,
 			fmt.Sprintf("git-bug %s exited with status %d and left the lock file (%s) behind; stderr: %s",
 				strings.Join(args, " "), code, x.pidsText(lc), firstLine(stderr)))
 	}
@@ -1043,11 +1091,15 @@ func firstLine(s string) string {
 	return s
 }
 
-func (x *execution) runCLI(args []string, watch func() bool) (code int, stdout, stderr string, pid int, aborted bool) {
+func (x *execution) runCLI(args []string, watch func() bool, uid int) (code int, stdout, stderr string, pid int, aborted bool) {
 	cmd := exec.Command(x.env.GitBug, args...)
 	cmd.Dir = x.repo
 	cmd.Env = x.childEnv
 	cmd.SysProcAttr = &syscall.SysProcAttr{Setsid: true} // own session: no controlling terminal, own group
+	if uid != 0 {
+		// another, unprivileged user: it may not signal the (root) holders, kill(pid, 0) gives EPERM
+		cmd.SysProcAttr.Credential = &syscall.Credential{Uid: uint32(uid), Gid: uint32(uid), Groups: []uint32{}}
+	}
 	var so, se bytes.Buffer
 	cmd.Stdout, cmd.Stderr = &so, &se
 	liveMu.Lock()
